@@ -84,6 +84,9 @@ def dec(v):
     return v
 
 
+NUMERIC_KINDS = ("int", "float", "datetime", "dt_utc", "dt_cph", "Int64", "Float64")
+
+
 def unit_for(kind, rng):
     if kind in ("bool", "boolean"):
         return "onoff"
@@ -201,6 +204,21 @@ def build(spec, ctx=None):
         t = cls(df, name=spec["name"], destinations=set(spec["dests"]), units=[c["unit"] for c in spec["cols"]],
                 transposed=spec["transposed"])
     t.metadata.origin = spec["origin"]
+    via = spec.get("via")
+    if via:
+        # the table is not built directly: its columns are brought into `order` by pandas operations on the
+        # backing frame of the table built above
+        with warnings.catch_warnings():
+            warnings.simplefilter("ignore")
+            if via["how"] == "rewrap":
+                t = Table(t.df[list(via["order"])])           # column selection, facade re-created
+            elif via["how"] == "inplace":
+                _ = t.units                                    # the header has been consulted before
+                for nm in via["order"]:                        # move each column to the end, in place
+                    ser = t.df.pop(nm)
+                    t.df[nm] = ser
+            else:
+                raise InfraError("unknown derivation " + str(via))
     return t
 
 
@@ -287,7 +305,11 @@ def ref_equal(a, b):
     """the right-hand side of C14's 'if and only if', from the contents of two Tables with default numbering"""
     if a.name != b.name or set(a.destinations) != set(b.destinations):
         return False
-    if list(a.column_names) != list(b.column_names) or list(a.units) != list(b.units):
+    if list(a.column_names) != list(b.column_names):
+        return False
+    # each column's own unit, looked up by column name (not the positional `units` list equals itself reads)
+    ma, mb = a.column_metadata, b.column_metadata
+    if [ma[c].unit for c in a.column_names] != [mb[c].unit for c in b.column_names]:
         return False
     if a.df.shape[0] != b.df.shape[0]:
         return False
@@ -652,6 +674,35 @@ def cases(rng, tier, seed):
                 continue
             yield {"seed": seed, "index": idx, "mutation": kind, "expected": exp, "a": copy.deepcopy(base), "b": m}
             idx += 1
+        # the same table reached by re-ordering the columns of an existing table's frame (column selection and
+        # re-wrap; in-place moves after the header was consulted) versus tables written down directly
+        if len(base["cols"]) >= 2:
+            names = [c["name"] for c in base["cols"]]
+            order = names[:]
+            while order == names:
+                rng.shuffle(order)
+            bycol = {c["name"]: c for c in base["cols"]}
+            direct = dict(copy.deepcopy(base), cols=[copy.deepcopy(bycol[nm]) for nm in order])
+            # the directly written table that keeps the units in their OLD positions (valid only if the dtypes allow)
+            stale = copy.deepcopy(direct)
+            for c, old in zip(stale["cols"], base["cols"]):
+                c["unit"] = old["unit"]
+            forced = lambda c: unit_for(c["kind"], rng) if c["kind"] not in NUMERIC_KINDS else None
+            stale_ok = all((c["unit"] == forced(c)) if forced(c) else (c["unit"] not in ("text", "onoff"))
+                           for c in stale["cols"]) and \
+                [c["unit"] for c in stale["cols"]] != [c["unit"] for c in direct["cols"]]
+            for how in ("rewrap", "inplace"):
+                derived = dict(copy.deepcopy(base), via={"how": how, "order": order})
+                yield {"seed": seed, "index": idx, "mutation": "reorder:" + how, "expected": True,
+                       "a": derived, "b": copy.deepcopy(direct)}
+                idx += 1
+                yield {"seed": seed, "index": idx, "mutation": "reorder_vs_original:" + how, "expected": False,
+                       "a": copy.deepcopy(base), "b": copy.deepcopy(derived)}
+                idx += 1
+                if stale_ok:
+                    yield {"seed": seed, "index": idx, "mutation": "reorder_stale_units:" + how, "expected": False,
+                           "a": copy.deepcopy(derived), "b": copy.deepcopy(stale)}
+                    idx += 1
         # histories: compare, edit one header aspect of one object in place, compare again, edit back, compare
         for _ in range(4):
             ha, hb, first, edits = gen_history(rng, base)
@@ -699,7 +750,9 @@ def run(tier, seed, model_ok, translator, search=False):
                 "kinds int/float/bool/str/object/datetime/Int64/Float64/boolean/string with NaN/None/NaT/pd.NA), "
                 "unrelated random pairs from a small and a large space, non-default indexes, histories (compare, edit name / "
                 "destinations / one unit in place through metadata, Column.unit and Table.units, compare the same "
-                "objects again, edit back, compare), subclass instances and "
+                "objects again, edit back, compare), tables reached by re-ordering the columns of an existing "
+                "table's frame (column selection + re-wrap, in-place moves after a consultation) against directly "
+                "written tables with the right and with the stale positional units, subclass instances and "
                 "non-Table arguments (None, scalars, containers, plain DataFrame, and objects carrying the table's own "
                 "content: its backing TableDataFrame, a twin's, copies, Series, (name, df) tuples/lists, duck-typed "
                 "objects, repr, column proxies); equals evaluated in both orders and on (a, a). Non-trivial: other is a Table "
